@@ -14,6 +14,7 @@ import z3
 from .ty import BOOL, INT, STR, SV, T
 
 _uid = itertools.count()
+SCALARISH = ('int', 'bool', 'str', 'u', 'set', 'dset', 'list', 'cnt')
 
 
 class Ctx:
@@ -67,8 +68,10 @@ class Ctx:
             return z3.StringSort()
         if t.k == 'u':
             return self.usort(t.name)
-        if t.k == 'set':
+        if t.k in ('set', 'list'):
             return z3.ArraySort(self.sort(t.args[0]), z3.BoolSort())
+        if t.k == 'cnt':
+            return z3.ArraySort(self.sort(t.args[0]), z3.IntSort())
         if t.k == 'dset':
             return z3.ArraySort(self.sort(t.args[0]), self.sort(T('set', (t.args[1],))))
         raise TypeError(f'type {t} has no single z3 sort')
@@ -79,7 +82,7 @@ class Ctx:
 
     def fresh(self, t: T, base: str = 'v'):
         """Fresh unconstrained representation of type t."""
-        if t.k in ('int', 'bool', 'str', 'u', 'set', 'dset'):
+        if t.k in SCALARISH:
             return z3.Const(self.fresh_name(base), self.sort(t))
         if t.k == 'map':
             return {'dom': z3.Const(self.fresh_name(base + '.dom'), z3.ArraySort(self.sort(t.args[0]), z3.BoolSort())),
@@ -95,7 +98,7 @@ class Ctx:
 
     def fresh_lifted(self, k: T, v: T, base: str):
         ks = self.sort(k)
-        if v.k in ('int', 'bool', 'str', 'u', 'set', 'dset'):
+        if v.k in SCALARISH:
             return z3.Const(self.fresh_name(base), z3.ArraySort(ks, self.sort(v)))
         if v.k == 'tuple':
             return tuple(self.fresh_lifted(k, a, f'{base}.{i}') for i, a in enumerate(v.args))
@@ -107,7 +110,7 @@ class Ctx:
         raise TypeError(f'cannot lift {v} over {k}')
 
     def select(self, v: T, lifted, key):
-        if v.k in ('int', 'bool', 'str', 'u', 'set', 'dset'):
+        if v.k in SCALARISH:
             return z3.Select(lifted, key)
         if v.k == 'tuple':
             return tuple(self.select(a, l, key) for a, l in zip(v.args, lifted))
@@ -118,7 +121,7 @@ class Ctx:
         raise TypeError(f'select on lifted {v}')
 
     def store(self, v: T, lifted, key, val):
-        if v.k in ('int', 'bool', 'str', 'u', 'set', 'dset'):
+        if v.k in SCALARISH:
             return z3.Store(lifted, key, val)
         if v.k == 'tuple':
             return tuple(self.store(a, l, key, x) for a, l, x in zip(v.args, lifted, val))
@@ -136,7 +139,7 @@ class Ctx:
     def eq(self, t: T, a, b):
         if t.k in ('int', 'bool', 'str', 'u'):
             return a == b
-        if t.k in ('set', 'dset'):
+        if t.k in ('set', 'dset', 'list', 'cnt'):
             return self.ext_eq(t, a, b)
         if t.k == 'tuple':
             return z3.And([self.eq(x, p, q) for x, p, q in zip(t.args, a, b)]) if t.args else z3.BoolVal(True)
@@ -158,12 +161,12 @@ class Ctx:
         if not self.finite:
             return a == b
         kt = t.args[0]
-        if t.k == 'set':
+        if t.k in ('set', 'list', 'cnt'):
             return self.forall([kt], lambda k: z3.Select(a, k) == z3.Select(b, k))
         return self.forall([kt], lambda k: self.ext_eq(T('set', (t.args[1],)), z3.Select(a, k), z3.Select(b, k)))
 
     def ite(self, t: T, c, a, b):
-        if t.k in ('int', 'bool', 'str', 'u', 'set', 'dset'):
+        if t.k in SCALARISH:
             return z3.If(c, a, b)
         if t.k == 'tuple':
             return tuple(self.ite(x, c, p, q) for x, p, q in zip(t.args, a, b))
@@ -176,7 +179,7 @@ class Ctx:
         raise TypeError(f'ite on {t}')
 
     def ite_lifted(self, v: T, c, a, b):
-        if v.k in ('int', 'bool', 'str', 'u', 'set', 'dset'):
+        if v.k in SCALARISH:
             return z3.If(c, a, b)
         if v.k == 'tuple':
             return tuple(self.ite_lifted(x, c, p, q) for x, p, q in zip(v.args, a, b))
